@@ -19,7 +19,7 @@ check("C02", "exploration",
       "Every <Type>FieldFormat.validated() call made by a generated workload (direct calls and end-to-end through Cid.read + "
       "cutplace.rows) is judged by a boundary monitor against an independent per-type model (integer/decimal literal, choice "
       "tokenizer, date layout parser, glob and regex-subset matchers); thorough sweeps all integers of up to 6 characters for "
-      "every length declaration 0..5 exhaustively. Fields are also used before their data format is complete (separators set later), fixed cells carry other white space at their edges, RegEx rules and cells reach beyond ASCII.",
+      "every length declaration 0..5 exhaustively. Fields are also used before their data format is complete (separators set later), fixed cells carry other white space at their edges, RegEx rules and cells reach beyond ASCII and hold line breaks; values that are no numbers (Infinity, NaN) and a second 61 are judged.",
       "Trusts cpverif/models/fieldmodel.py (self-tested), Python's int/Decimal/datetime; non-canonical spellings are unjudged.",
       "runtime monitor on FieldFormat.validated + executable reference model (M-field)", "DESIGN.md 5/C02")
 check("C03", "exploration",
@@ -30,7 +30,7 @@ check("C03", "exploration",
       "runtime monitor on FieldFormat.validated + guard model, exhaustive enumeration of the stated product", "DESIGN.md 5/C03")
 
 check("C04", "exploration",
-      "Generated CIDs and tables (accepted/rejected cells, ragged rows, headers, none / one / two IsUnique checks, every fixed line-delimiter setting) are stored in six storages "
+      "Generated CIDs and tables (accepted/rejected cells, ragged rows, headers, none / one / two IsUnique checks, every fixed line-delimiter setting, cells of nothing but white space in fields that may be empty) are stored in six storages "
       "(delimited stream/file, fixed stream/file, generated ODS, generated XLSX) and read with cutplace.rows(on_error='yield'); "
       "every produced item is compared with the row model: verdict, row number, first offending column, input name, field name.",
       "Trusts M-field/M-rows and the independent ODS/XLSX producers (zipfile+XML, xlsxwriter).",
@@ -38,7 +38,7 @@ check("C04", "exploration",
 check("C05", "exploration",
       "Row sequences over tiny key alphabets are read through cutplace.Reader in all three modes; each produced item, the "
       "location and see-also location of every duplicate report and the end-of-data verdict of close() are compared with an "
-      "independent uniqueness / distinct-count model (DistinctCount rules also with several comparisons; readers created up front; raise-mode runs also through cutplace.rows; errors re-inspected after the run); thorough enumerates all sequences of up to 5 rows over 5 row kinds.",
+      "independent uniqueness / distinct-count model (DistinctCount rules also with several comparisons; readers created up front; raise-mode runs also through cutplace.rows; errors re-inspected after the run; the same rows through a validating Writer; free-text keys holding the item delimiter or a line break); thorough enumerates all sequences of up to 5 rows over 5 row kinds.",
       "Trusts M-checks (two variants where a later row uses the key of a row that a later-declared check rejected: the statement's and the recorded defect's).",
       "recorded reader history vs executable model of the whole-file checks (M-checks)", "DESIGN.md 5/C05")
 
@@ -47,14 +47,14 @@ check("C06", "exploration",
       "compared with each other (continue = accepted rows of yield; raise = prefix + the same error), with the counters "
       "(conservation) and with the row model; yielded errors are re-inspected after the run; container faults are injected at "
       "every row boundary (unterminated quote, undecodable byte, UTF-16/32 without byte order mark, short fixed record incl. data ending at every position inside the last record, wrong delimiter, truncated ODS/XLSX "
-      "archive, cut content.xml) and must end in DataFormatError in every mode.",
+      "archive, cut content.xml, bytes overwritten inside the compressed data of a part) and must end in DataFormatError in every mode.",
       "Relational oracle over executions of the real reader plus M-reader; corrupted containers that still parse are unjudged.",
       "recorded histories of three reader runs compared relationally + fault injection at row boundaries", "DESIGN.md 5/C06")
 
 check("C13", "fault_enumeration",
       "fixed_rows is executed on every string up to length 6 (quick) / 9 (thorough) over {a,b,CR,LF} x all 39 width lists x the "
       "five delimiter settings and on single-character deletions / insertions / replacements at every offset of longer files "
-      "(streams and real files), the strings up to length 5 / 6 also through cutplace.Reader on a character stream; each execution is judged for losslessness (input rebuilt from the rows with permitted "
+      "(streams and real files), the strings up to length 5 / 6 also through cutplace.Reader on a character stream (half of its CIDs grown through the API between reads), the short strings also behind a leading U+FEFF; each execution is judged for losslessness (input rebuilt from the rows with permitted "
       "delimiters), item widths, error type, and acceptance of well-formed inputs. Exhaustive over the bounded space.",
       "Oracle is a reconstruction search independent of cutplace; acceptance of records that themselves contain CR/LF is unjudged.",
       "exhaustive execution of the real reader under a reconstruction oracle + single-character fault injection", "DESIGN.md 5/C13")
